@@ -14,6 +14,7 @@ fn main() {
         ("c13", "record") => yv::c13::record(&args),
         ("c12", "record") => yv::c12::record(&args),
         ("c11", "record") => yv::c11::record(&args),
+        ("c09", "record") => yv::c09::record(&args),
         _ => { eprintln!("unknown command {:?}", &a[..2]); std::process::exit(2); }
     }
 }
